@@ -229,4 +229,6 @@ def check(ctx: Ctx, col: Collector, tier: str) -> None:
         want = {(repr(ListV(tuple(want_paths))), repr(Const(want_len)))}
         (col.ok if got == want else col.bad)("C12.ROOT", f"{GETAPI}::_get_nearest_init_dirs::{label}", repo.loc(GETAPI, node), f"{label} __init__: paths/len -> {sorted(got)}",
                                              *([] if got == want else [f"an __init__.py that is {label} than the nearest one seen so far leads to {sorted(got)}, expected {sorted(want)}: sibling top-level packages are lost"]))
+    from .shared import share
+    share(ctx, col, "C18", {"C18.SHARED-WRITE"}, "superclass names are resolved through tables that are not changed by earlier lookups")
     col.assume("completeness with respect to the source beyond C03's clauses, and alias resolution of superclass names, are not decided")
